@@ -40,6 +40,8 @@ func checkC01(ctx *Ctx, r *Report) {
 	c01CueDefaultBranch(ctx, r)
 	c01OpenAPIWidestDefault(ctx, r)
 	c01GoByteSliceTrap(ctx, r)
+	c01UnionClassifiedWithoutNull(ctx, r)
+	c01OmitEmptyOnCollections(ctx, r)
 	c01LoopLocalResult(ctx, r)
 }
 
@@ -2064,4 +2066,92 @@ func c11HuntedRules(ctx *Ctx, r *Report) {
 	}
 	r.Count("enum member names written by the python jenny", k)
 	r.Floor("enum member names written by the python jenny", 3)
+}
+
+// c01UnionClassifiedWithoutNull: `null` is not a branch to discriminate. The passes that decide "this union is a union
+// of references" (discriminator inference, mapping, the struct's disjunction hint, the any fallback) must ask
+// HasOnlyRefs of the non-null branches: asked of all branches it is false for `Cat | Dog | null`, the union gets no
+// discriminator and the generated Go type no custom (un)marshaller.
+func c01UnionClassifiedWithoutNull(ctx *Ctx, r *Report) {
+	p := ctx.Pkg("internal/ast/compiler")
+	if p == nil {
+		return
+	}
+	info := p.TypesInfo
+	n := 0
+	for _, file := range p.Syntax {
+		for _, d := range file.Decls {
+			fd, ok := d.(*ast.FuncDecl)
+			if !ok || fd.Body == nil {
+				continue
+			}
+			fobj, _ := info.Defs[fd.Name].(*types.Func)
+			// locals bound to a NonNullTypes() result
+			nonNull := map[types.Object]bool{}
+			ast.Inspect(fd.Body, func(m ast.Node) bool {
+				if as, ok := m.(*ast.AssignStmt); ok && len(as.Lhs) == 1 && len(as.Rhs) == 1 && strings.HasSuffix(exprString(as.Rhs[0]), ".NonNullTypes()") {
+					if id, ok := as.Lhs[0].(*ast.Ident); ok {
+						nonNull[objOf(info, id)] = true
+					}
+				}
+				return true
+			})
+			ast.Inspect(fd.Body, func(m ast.Node) bool {
+				c, ok := m.(*ast.CallExpr)
+				if !ok {
+					return true
+				}
+				sel, ok := c.Fun.(*ast.SelectorExpr)
+				if !ok || sel.Sel.Name != "HasOnlyRefs" {
+					return true
+				}
+				n++
+				good := strings.HasSuffix(exprString(sel.X), ".NonNullTypes()")
+				if id, ok := ast.Unparen(sel.X).(*ast.Ident); ok && nonNull[objOf(info, id)] {
+					good = true
+				}
+				r.Check(good, "kinds/union-classified-without-null", fmt.Sprintf("%s asks HasOnlyRefs of %s", ctx.FuncName(fobj), exprString(sel.X)), c.Pos(), "of the non-null branches",
+					fmt.Sprintf("%s asks HasOnlyRefs of %s, null branch included: `Cat | Dog | null` is not recognised as a union of references — no discriminator, no custom (un)marshaller in Go: documents decode without error and are re-encoded as {}", ctx.FuncName(fobj), exprString(sel.X)))
+				return true
+			})
+		}
+	}
+	r.Count("classifications of a union as 'references only'", n)
+	r.Floor("classifications of a union as 'references only'", 3)
+}
+
+// c01OmitEmptyOnCollections: Go's `omitempty` drops a slice or map that is *empty*, not one that is *absent*: an
+// optional list given as [] (or map as {}) disappears on re-encoding. formatField adds `,omitempty` to every optional
+// field whatever its type; optional collections need a pointer, `omitzero`, or a marshaller that omits nil only.
+func c01OmitEmptyOnCollections(ctx *Ctx, r *Report) {
+	fn := ctx.LookupMethod("internal/jennies/golang", "typeFormatter", "formatField")
+	fd, _ := ctx.DeclOf(fn)
+	if fd == nil {
+		r.Undecided("anchor lost: golang.typeFormatter.formatField")
+		return
+	}
+	distinguishes := false
+	ast.Inspect(fd.Body, func(m ast.Node) bool {
+		is, ok := m.(*ast.IfStmt)
+		if !ok {
+			return true
+		}
+		sets := false
+		ast.Inspect(is.Body, func(q ast.Node) bool {
+			if bl, ok := q.(*ast.BasicLit); ok && strings.Contains(bl.Value, "omitempty") {
+				sets = true
+			}
+			return true
+		})
+		if sets {
+			cs := exprString(is.Cond)
+			if strings.Contains(cs, "IsArray") || strings.Contains(cs, "IsMap") || strings.Contains(cs, "KindArray") || strings.Contains(cs, "KindMap") {
+				distinguishes = true
+			}
+		}
+		return true
+	})
+	r.Count("omitempty decisions of the Go jenny", 1)
+	r.Check(distinguishes, "skeleton/omitempty-not-on-collections", "golang.typeFormatter.formatField omitempty", fd.Pos(), "optional lists and maps are not given a bare `omitempty`",
+		"formatField adds `,omitempty` to every optional field: for a list or a map it omits the *empty* value, not the absent one — {\"tags\": []} is re-encoded without `tags` by both decoders")
 }
